@@ -94,16 +94,63 @@ func undefinedPattern(p string) bool {
 func fieldPolicyFn(global tree.Policy, opts []fieldOpt, transparent bool) tree.PolicyFn {
 	return func(path []string) tree.Policy {
 		for l := len(path); l >= 1; l-- {
-			// later options override earlier ones on the same path
-			for i := len(opts) - 1; i >= 0; i-- {
-				if matchPattern(patSegs(opts[i].Path), path[:l], transparent) {
-					return opts[i].Policy
+			// a pattern naming the path itself is more specific than a ** pattern; among
+			// equally specific ones the later option overrides the earlier
+			for _, wantWild := range []bool{false, true} {
+				for i := len(opts) - 1; i >= 0; i-- {
+					segs := patSegs(opts[i].Path)
+					if (segs[0] == "**") != wantWild {
+						continue
+					}
+					if matchPattern(segs, path[:l], transparent) {
+						return opts[i].Policy
+					}
 				}
 			}
 		}
 		return global
 	}
 }
+
+// ambiguousPair: "p" and "p.*..." are rendered into the same entry of the option tree
+// (the handling of p and the element selector below p share the key "*").
+func ambiguousPair(a, b string) bool {
+	strip := func(p string) string {
+		segs := patSegs(p)
+		for len(segs) > 0 && segs[len(segs)-1] == "*" {
+			segs = segs[:len(segs)-1]
+		}
+		return strings.Join(segs, ".")
+	}
+	// a ** pattern whose name is an intermediate component of the other path: which of the
+	// two overlapping options governs below that component is not defined by the statement
+	overl := func(w, p string) bool {
+		ws, ps := patSegs(w), patSegs(p)
+		if ws[0] != "**" || len(ws) != 2 {
+			return false
+		}
+		for _, seg := range ps[:len(ps)-1] {
+			if seg == ws[1] {
+				return true
+			}
+		}
+		return false
+	}
+	if overl(a, b) || overl(b, a) {
+		return true
+	}
+	// two wildcard patterns ending in the same name can name the same node: no precedence defined
+	if strings.Contains(a, "*") && strings.Contains(b, "*") {
+		as, bs := patSegs(a), patSegs(b)
+		if as[len(as)-1] == bs[len(bs)-1] {
+			return true
+		}
+	}
+	sa, sb := strip(a), strip(b)
+	return sa == sb || strings.HasPrefix(patJoin(a), sb+".*") || strings.HasPrefix(patJoin(b), sa+".*")
+}
+
+func patJoin(p string) string { return strings.Join(patSegs(p), ".") }
 
 func noNilTrees(d int, keys []string, maxL int) []*tree.Node {
 	var out []*tree.Node
@@ -178,9 +225,13 @@ func c16Space(name string, ts []*tree.Node, paths []string, nopts int) *core.Spa
 		},
 		Exec: func(i int) core.Result {
 			g, a, b, fo := dec(i)
-			if nopts == 2 && fo[0].Path == fo[1].Path {
+			if nopts == 2 && (fo[0].Path == fo[1].Path || ambiguousPair(fo[0].Path, fo[1].Path)) {
 				return core.Result{Skipped: true}
 			}
+			if (a.HasA && len(a.D) == 0) != (b.HasA && len(b.D) == 0) {
+				return core.Result{Skipped: true} // a list merged with a dict at the top: not observable through one Unpack
+			}
+			topList := a.HasA && len(a.D) == 0
 			want := tree.MergeAt(fieldPolicyFn(g, fo, false), nil, a, b).Canon()
 			want2 := tree.MergeAt(fieldPolicyFn(g, fo, true), nil, a, b).Canon()
 			plain := tree.Merge(g, a, b).Canon()
@@ -197,6 +248,13 @@ func c16Space(name string, ts []*tree.Node, paths []string, nopts int) *core.Spa
 					opts = append(opts, f.option())
 				}
 				if err = ca.Merge(b.ToGo(), opts...); err != nil {
+					return
+				}
+				if topList {
+					var l []interface{}
+					if err = ca.Unpack(&l); err == nil {
+						got = tree.CanonGo(l)
+					}
 					return
 				}
 				got, err = canonOfConfig(ca)
@@ -323,6 +381,13 @@ func init() {
 			paths := []string{"a", "b", "a.a", "a.b", "b.a", "a.a.a", "a.0", "c", "c.a"}
 			base := dictTop(noNilTrees(2, kAB, 2))
 			sp := dictTop(spinesAB(2))
+			reuseTrees := []*tree.Node{
+				tree.Dict("a", tree.List(tree.LeafN("L"))), tree.Dict("b", tree.List(tree.LeafN("L"), tree.LeafN("L"))),
+				tree.Dict("a", tree.List(tree.LeafN("L")), "b", tree.List(tree.LeafN("L"))),
+				tree.Dict("a", tree.Dict("a", tree.List(tree.LeafN("L")), "b", tree.LeafN("L"))),
+				tree.Dict("a", tree.Dict("b", tree.LeafN("L")), "b", tree.Dict("a", tree.List(tree.LeafN("L")))),
+				tree.Dict("a", tree.Dict("a", tree.LeafN("L")), "b", tree.LeafN("L")),
+			}
 			if tier == "thorough" {
 				withNil := dictTop(unionTrees(cachedEnum(2, kA, 2), cachedEnum(1, kAB, 2), noNilTrees(2, kAB, 2)))
 				wild := []string{"*", "*.a", "*.b", "a.*", "**.a", "**.b", "**.a.a", "*.0", "**.0"}
@@ -331,20 +396,23 @@ func init() {
 					c16Space("one-option", withNil, paths, 1),
 					c16Space("one-option-spines", dictTop(spinesAB(3)), append(append([]string{}, paths...), "a.0.a", "a.1", "a.1.a", "a.a.0"), 1),
 					c16Space("two-options", base, paths, 2),
-					c16Space("wildcards", unionTrees(base, sp), wild, 1),
+					c16Space("wildcards", unionTrees(base, sp), append(wild, "*.*", "a.*.*", "a.*.a", "b.*.*"), 1),
+					c16Space("wildcard+plain-two-options", unionTrees(reuseTrees, dictTop(spinesAB(2))), []string{"a", "b", "a.a", "b.a", "**.a", "**.b", "**.c", "*.a", "a.*.*"}, 2),
 				}
 			}
-			reuseTrees := []*tree.Node{
-				tree.Dict("a", tree.List(tree.LeafN("L"))), tree.Dict("b", tree.List(tree.LeafN("L"), tree.LeafN("L"))),
-				tree.Dict("a", tree.List(tree.LeafN("L")), "b", tree.List(tree.LeafN("L"))),
-				tree.Dict("a", tree.Dict("a", tree.List(tree.LeafN("L")), "b", tree.LeafN("L"))),
-				tree.Dict("a", tree.Dict("b", tree.LeafN("L")), "b", tree.Dict("a", tree.List(tree.LeafN("L")))),
-				tree.Dict("a", tree.Dict("a", tree.LeafN("L")), "b", tree.LeafN("L")),
-			}
+			// wildcard patterns alone and next to plain names; documents with a list at the top
+			wildTrees := unionTrees(reuseTrees, dictTop(spinesAB(1)), []*tree.Node{
+				tree.List(tree.Dict("a", tree.List(tree.LeafN("L")))), tree.List(tree.Dict("a", tree.List(tree.LeafN("L"))), tree.Dict("b", tree.LeafN("L"))),
+				tree.Dict("a", tree.List(tree.Dict("a", tree.List(tree.LeafN("L"))), tree.Dict("a", tree.List(tree.LeafN("L"))))),
+				tree.Dict("b", tree.Dict("a", tree.List(tree.LeafN("L"))), "a", tree.List(tree.LeafN("L"))),
+				tree.Dict("b", tree.Dict("b", tree.Dict("a", tree.List(tree.LeafN("L")))), "a", tree.List(tree.LeafN("L"))),
+			})
 			return []*core.Space{
 				c16Space("one-option", base, paths, 1),
 				c16Space("one-option-spines", sp, append(append([]string{}, paths...), "a.0.a", "a.1", "a.1.a"), 1),
 				c16Reuse(reuseTrees, []string{"a", "b", "a.a", "a.b", "b.a"}),
+				c16Space("wildcards-one-option", wildTrees, []string{"*", "*.*", "*.a", "a.*.*", "a.*.a", "**.a", "**.b", "**.0", "b.*"}, 1),
+				c16Space("wildcard+plain-two-options", wildTrees, []string{"a", "b", "a.a", "**.a", "**.c", "*.a", "a.*.*"}, 2),
 			}
 		},
 	})
